@@ -704,6 +704,9 @@ func isFatalError(err error) bool {
 		return true
 	case errors.Is(err, context.DeadlineExceeded):
 		return true
+	case status.Code(err) == codes.DeadlineExceeded:
+		// the plugin's ttrpc server reporting that the deadline we passed along expired
+		return true
 	}
 	return false
 }
